@@ -190,7 +190,12 @@ func TestC19(t *testing.T) {
 		focus: Focus{Stop: true},
 		leak:  true,
 		check: CheckC19,
-		skip:  wedgedNotMine,
+		skip: func(s Script, tr Trace) string {
+			if len(tr.Leaked) > 0 {
+				return ""
+			}
+			return wedgedNotMine(s, tr)
+		},
 		nontriv: func(s Script, tr Trace) bool {
 			return tr.StopIssuedAt >= 0 || s.Timeout > 0
 		},
